@@ -84,6 +84,23 @@ func VerifValidSlots(v *ValidReplayer) (slots []*Message, exps []time.Time, head
 	return slots, exps, v.messages.head, v.messages.tail, v.messages.count
 }
 
+// The part of a replayer's backing array beyond its length (up to its capacity): a message referenced
+// from there is as unreachable for the library and as alive for the garbage collector as one in a dead slot.
+
+func VerifFiniteHidden(f *FiniteReplayer) (hidden []*Message) {
+	for _, e := range f.buf.buf[len(f.buf.buf):cap(f.buf.buf)] {
+		hidden = append(hidden, e.message)
+	}
+	return hidden
+}
+
+func VerifValidHidden(v *ValidReplayer) (hidden []*Message) {
+	for _, e := range v.messages.buf[len(v.messages.buf):cap(v.messages.buf)] {
+		hidden = append(hidden, e.message)
+	}
+	return hidden
+}
+
 // Connection internals.
 
 func (c *Connection) VerifLastEventID() string { return c.lastEventID }
